@@ -256,6 +256,21 @@ CHECKS['C17'] = dict(
     note=COMMON_NOTE + 'numeric formatting is numpy runtime behaviour: numeric cells compared after parsing; descriptors containing commas are outside the domain.',
     ref='§5 C17')
 
+CHECKS['C18'] = dict(
+    technique='Lean 4 theorems over a group-member model of create_empty_dataset (any call sequence) + differential correspondence with raw h5py read-back',
+    text=('Theorems (Usid/Properties/C18.lean): for EVERY destination group, source descriptor and request, a successful '
+          'call returns a dataset of the source\'s shape and the requested type carrying the source\'s descriptive '
+          'attributes and the new ones and linked to the source\'s ancillaries (same file) or to copies (other file); '
+          'a newly created one has the source\'s chunking and compression and zero contents; an existing compatible '
+          'dataset is returned with its contents flag unchanged (so a repeated call never erases); a non-dataset occupant '
+          'is refused with the group unchanged; every other member of the group is untouched. Correspondence: the real '
+          'create_empty_dataset on generator datasets x layouts x dtypes (real, complex, compound) x destinations (same '
+          'group, other group, other file) x dashed names x 1-3 calls with data written in between x prior occupants; '
+          'read back with raw h5py (shape, dtype, chunks, compression, attribute names, link targets, faithful copies, '
+          'contents, Main validity by the C06 rules).'),
+    note=COMMON_NOTE + 'HDF5 storage of chunks/filters and sidpy\'s copy_attributes / copy_linked_objects are modelled by their observable effect (attribute names, link targets) and checked by read-back, not verified.',
+    ref='§5 C18')
+
 REASON_PENDING = 'check not built yet in this round (planned: Lean model + theorems + correspondence, see DESIGN.md §5)'
 
 
